@@ -21,6 +21,10 @@ def main():
         tier = args[i + 1]
         del args[i:i + 2]
     name, props = args[0], args[1:]
+    # one seeded run at a time: they share the Coq development (generated files included) with each other
+    import fcntl
+    lock = open("/tmp/seed_run.inner.lock", "w")
+    fcntl.flock(lock, fcntl.LOCK_EX)
     sd = os.path.join(ROOT, "seeded", name)
     wt = "/tmp/sr-" + name
     subprocess.run(["git", "-C", "/repo", "worktree", "remove", "--force", wt], stderr=subprocess.DEVNULL)
